@@ -111,6 +111,17 @@ def leOf (rev : Bool) (x y : Val) : Bool :=
 
 def specSort (rev : Bool) (xs : List Val) : List Val := xs.mergeSort (leOf rev)
 
+/-- `list.insert(i, x)`: negative indices count from the end, then the position is clamped to `[0, n]` -/
+def specInsert (xs : List Val) (i : Int) (x : Val) : List Val :=
+  let n : Int := xs.length
+  let j := if i < 0 then max 0 (i + n) else min i n
+  xs.take j.toNat ++ [x] ++ xs.drop j.toNat
+
+/-- `list.remove(x)`: the first item equal to `x` goes; `none` when there is no such item -/
+def removeFirst (x : Val) : List Val → Option (List Val)
+  | [] => Option.none
+  | y :: ys => if pyEq y x then some ys else (removeFirst x ys).map (y :: ·)
+
 /-! ### Python set semantics: membership is `==` -/
 
 def setAdd := setAddBy pyEq
@@ -244,6 +255,22 @@ def specStep (perm : Bool → List Val → List Val) (h : SHeap) (op : Op) : SHe
       else (h.setObj (h.id v) (.list (perm rev xs)), .err .type)
     | _ => (h, .stuck)
   | .lForAppend v bound => updList v (fun xs => .ok (specForAppend bound (bound + xs.length + 1) 0 xs))
+  | .lInsert v i x => updList v (fun xs => .ok (specInsert xs i x))
+  | .lPop v i =>
+    match h.obj v with
+    | some (.list xs) =>
+      if xs = [] then (h, .err .index)
+      else match normIndex xs.length (i.getD (-1)) with
+        | .ok k => (h.setObj (h.id v) (.list (xs.eraseIdx k)), .val (xs.getD k .none))
+        | .error e => (h, .err e)
+    | _ => (h, .stuck)
+  | .lRemove v x => updList v (fun xs => match removeFirst x xs with | some ys => .ok ys | Option.none => .error .value)
+  | .lReverse v => updList v (fun xs => .ok xs.reverse)
+  | .lClear v => updList v (fun _ => .ok [])
+  | .lCopyM u v =>
+    match h.obj v with
+    | some (.list xs) => (h.new u (.list xs), .ok)
+    | _ => (h, .stuck)
   | .len v =>
     match h.obj v with
     | some (.list xs) => (h, .val (.int xs.length))
@@ -319,6 +346,36 @@ def specStep (perm : Bool → List Val → List Val) (h : SHeap) (op : Op) : SHe
     match h.obj v with
     | some (.dict m) => (h, if which == 0 then .vals (m.map (fun p => Val.str p.1)) else .vals (m.map (·.2)))
     | _ => (h, .stuck)
+  | .dUpdate v w =>
+    match h.obj v, h.obj w with
+    | some (.dict m), some (.dict mw) => (h.setObj (h.id v) (.dict (dictMerge m mw)), .ok)
+    | _, _ => (h, .stuck)
+  | .dUpdatePairs v kvs | .dUpdateKw v kvs =>
+    match h.obj v with
+    | some (.dict m) => (h.setObj (h.id v) (.dict (dictMerge m (dictOfList kvs))), .ok)
+    | _ => (h, .stuck)
+  | .dPop v k dflt =>
+    match h.obj v with
+    | some (.dict m) =>
+      match dictGet m k with
+      | some x => (h.setObj (h.id v) (.dict (dictDel m k)), .val x)
+      | Option.none => (h, match dflt with | some d => .val d | Option.none => .err .key)
+    | _ => (h, .stuck)
+  | .dSetDefault v k dflt =>
+    match h.obj v with
+    | some (.dict m) =>
+      match dictGet m k with
+      | some x => (h, .val x)
+      | Option.none => (h.setObj (h.id v) (.dict (dictSet m k (dflt.getD .none))), .val (dflt.getD .none))
+    | _ => (h, .stuck)
+  | .dCopyM u v =>
+    match h.obj v with
+    | some (.dict m) => (h.new u (.dict m), .ok)
+    | _ => (h, .stuck)
+  | .dClear v =>
+    match h.obj v with
+    | some (.dict _) => (h.setObj (h.id v) (.dict []), .ok)
+    | _ => (h, .stuck)
   | .sNew v xs => (h.new v (.set (setOfList xs)), .ok)
   | .sEmpty v => (h.new v (.set []), .ok)
   | .sCopy v w | .sComp v w =>
@@ -341,6 +398,33 @@ def specStep (perm : Bool → List Val → List Val) (h : SHeap) (op : Op) : SHe
     match h.obj v, h.obj w with
     | some (.set a), some (.set b) => (h.setObj (h.id v) (.set (specSetBin op a b)), .ok)
     | _, _ => (h, .stuck)
+  | .sUpdate v w =>
+    match h.obj v, h.obj w with
+    | some (.set a), some (.set b) => (h.setObj (h.id v) (.set (setUpdateBy pyEq a b)), .ok)
+    | _, _ => (h, .stuck)
+  | .sUpdateSrc v s =>
+    match h.obj v with
+    | some (.set a) =>
+      match s.items with
+      | .ok xs => (h.setObj (h.id v) (.set (setUpdateBy pyEq a xs)), .ok)
+      | .error e => (h, .err e)
+    | _ => (h, .stuck)
+  | .sRemove v x =>
+    match h.obj v with
+    | some (.set a) => if memBy pyEq a x then (h.setObj (h.id v) (.set (setDelBy pyEq a x)), .ok) else (h, .err .key)
+    | _ => (h, .stuck)
+  | .sDiscard v x =>
+    match h.obj v with
+    | some (.set a) => (h.setObj (h.id v) (.set (setDelBy pyEq a x)), .ok)
+    | _ => (h, .stuck)
+  | .sClear v =>
+    match h.obj v with
+    | some (.set _) => (h.setObj (h.id v) (.set []), .ok)
+    | _ => (h, .stuck)
+  | .sCopyM u v =>
+    match h.obj v with
+    | some (.set xs) => (h.new u (.set (setOfList xs)), .ok)
+    | _ => (h, .stuck)
 
 /-! ### known-finding predicates -/
 
@@ -359,6 +443,9 @@ def Op.vals : Op → List Val
   | .sOfSrc _ s => s.vals
   | .sAdd _ x => [x]
   | .contains _ x => [x]
+  | .sUpdateSrc _ s => s.vals
+  | .sRemove _ x => [x]
+  | .sDiscard _ x => [x]
   | _ => []
 
 /-- C17-K01: a set history that mentions two Python-equal values which Go's `==` tells apart
